@@ -45,6 +45,8 @@ def run_one(ob):
     """returns dict(key, verdict, rule, anchor, detail, sig, wall_s, funcs)"""
     t0 = time.time()
     nf.reset()
+    from . import interp as _interp
+    _interp.ALL_CALLS.clear()
     out = dict(key=ob.key, rule=ob.rule, anchor=ob.anchor, claimed=ob.claimed, group=ob.group)
     try:
         r = ob.fn()
@@ -94,6 +96,8 @@ def run_one(ob):
     except Exception as e:
         out["verdict"] = ERROR
         out["detail"] = "internal: " + "".join(traceback.format_exception_only(type(e), e)).strip() + " @ " + traceback.format_exc().strip().splitlines()[-3].strip()
+    if not out.get("funcs"):
+        out["funcs"] = sorted({f"{m}:{q}" for m, q in _interp.ALL_CALLS})
     out["wall_s"] = round(time.time() - t0, 3)
     out["stats"] = dict(nf.ST.stats)
     return out
@@ -147,8 +151,10 @@ def finish(prop, tier, obs, results, level, floors, t0, extra_cov=None, assumpti
     """print verdict lines, write evidence + replay files, return exit code."""
     known = load_known()
     seed = int(os.environ.get("VERIF_SEED", "0") or 0)
-    os.makedirs(os.path.join(VERIF, "evidence"), exist_ok=True)
-    os.makedirs(os.path.join(VERIF, "replay"), exist_ok=True)
+    selftest_mode = bool(os.environ.get("GTSA_SELFTEST"))
+    outdir = VERIF if not selftest_mode else os.path.join(model.load().repo, "_gtsa_out")
+    os.makedirs(os.path.join(outdir, "evidence"), exist_ok=True)
+    os.makedirs(os.path.join(outdir, "replay"), exist_ok=True)
     viol, knownhits, incomplete = [], [], []
     by = {PROVED: [], REFUTED: [], UNDECIDED: [], ERROR: []}
     for r in results:
@@ -179,7 +185,7 @@ def finish(prop, tier, obs, results, level, floors, t0, extra_cov=None, assumpti
     seen_constructs = {}
     for r in viol:
         h = hashlib.sha1(r["key"].encode()).hexdigest()[:10]
-        path = os.path.join(VERIF, "replay", f"{prop}_{h}.json")
+        path = os.path.join(outdir, "replay", f"{prop}_{h}.json")
         json.dump(dict(property=prop, key=r["key"], rule=r["rule"], anchor=r["anchor"], construct=r.get("construct", r["anchor"]),
                        detail=r.get("detail"), sig=r.get("sig"), functions=r.get("funcs")), open(path, "w"), indent=1, default=str)
         d = r.get("detail")
@@ -189,7 +195,8 @@ def finish(prop, tier, obs, results, level, floors, t0, extra_cov=None, assumpti
             seen_constructs[gk].append(r["key"])
             continue
         seen_constructs[gk] = []
-        print(f"REFUTED {r['key']} rule={r['rule']} construct={where}")
+        fl = [f for f in (r.get("funcs") or []) if not f.endswith(("__post_init__", ".R", ".D", ".Dx", ".Dy", ".Dk", ".Da", ".Dphi", ".integration_dict"))]
+        print(f"REFUTED {r['key']} rule={r['rule']} construct={where}" + (f" functions-analysed=[{', '.join(fl[:10])}]" if fl else ""))
         print("   " + json.dumps(d, default=str)[:1500])
         print(f"VIOLATION property={prop} replay={path}")
     for (where, rule), more in seen_constructs.items():
@@ -228,9 +235,12 @@ def finish(prop, tier, obs, results, level, floors, t0, extra_cov=None, assumpti
     )
     if extra_cov:
         cov.update(extra_cov)
+    st = os.environ.get("GTSA_SELFTEST_RESULT")
+    if st:
+        cov["selftest"] = json.loads(st)
     ev = dict(property_id=prop, tier=tier, seed=seed, level=level, coverage=cov,
               assumptions=assumptions or [], wall_s=round(time.time() - t0, 3), violations=len(viol))
-    json.dump(ev, open(os.path.join(VERIF, "evidence", f"{prop}.json"), "w"), indent=1, default=str)
+    json.dump(ev, open(os.path.join(outdir, "evidence", f"{prop}.json"), "w"), indent=1, default=str)
     print(f"[{prop}/{tier}] obligations={len(results)} proved={len(by[PROVED])} refuted={len(by[REFUTED])} "
           f"(known={len(knownhits)}) undecided={len(by[UNDECIDED])} errors={len(by[ERROR])} wall={ev['wall_s']}s")
     if viol:
